@@ -1,8 +1,8 @@
+\* reduced universe (M = 3, default parameters, <= 1 weak copy): without this rule the point set grows 10-20x
 CONSTANTS
-  Ms = {3, 4}
-  CnMaxs = {2000, 100}
-  FsSet = {0, 1, 2}
-  XMax = 2
+  Ms = {3}
+  Modes = {0}
+  XMax = 1
   QMax = 1
   Margin = 20000
   Drop = {"CORD_HAP"}
